@@ -152,6 +152,7 @@ func stressWindow(comp string, caseID int, seed int64) []Ev {
 			}
 			jitter(rng)
 			w.rec.log(Ev{Ev: "CbEnd", Op: op.id, Kind: op.kind, Msg: m, Digest: digest(payload), N: n})
+			poison(payload) // the callback owns the message: use that right
 			return n
 		}
 	}
